@@ -11,7 +11,7 @@ for d in sorted(os.listdir(root)):
     m = re.search(r'_(C\d\d)', d)
     prop = m.group(1) if m else None
     checks = {}
-    for mm in re.finditer(r'(C\d+):rc=(\d+):([^ \n]*)', res):
+    for mm in re.finditer(r'(C\d+):rc=(\d+):((?: ?\d+ \w+;)*)', res):
         checks[mm.group(1)] = {'exit': int(mm.group(2)),
                                'clauses': [c.strip() for c in mm.group(3).split(';') if c.strip()]}
     demo = re.search(r'demo_clean_rc=(\d+) demo_patched_rc=(\d+) tests="([^"]*)"', res)
